@@ -168,10 +168,19 @@ package anytype
 //@   ensures  fluent: result == ego.ptr [C19]
 //@   ensures  ptr-kept: ego.ptr == old(ego.ptr)
 
-//@ extern sort.Ints
+//@ template sort-extern(NAME, LE)
+//@ extern NAME
+//@   let n := len(x)
+//@   let A0 := mem(x)
 //@   assigns  arr(x)
 //@   panics_iff false
-//@   ensures  true
+//@   ensures  perm: isPerm(sortPerm(A0, n), n)
+//@   ensures  elems: forall k int :: 0 <= k && k < n ==> same(x[k], old(x[sortPerm(A0, n)[k]]))
+//@   ensures  sorted: forall i int, j int :: 0 <= i && i < j && j < n ==> LE(x[i], x[j])
+//@ end
+//@ instantiate sort-extern(sort.Ints, ile)
+//@ instantiate sort-extern(sort.Strings, sle)
+//@ instantiate sort-extern(sort.Float64s, fle)
 
 //@ func (*list).Delete [C05 C19]
 //@   requires invL(ego)
@@ -285,13 +294,14 @@ package anytype
 // ---------------------------------------------------------------------------
 
 //@ template typed-slice(NAME, KIND, TEST, PAYLOAD)
-//@ func (*list).NAME [C14 C17 C09 C19]
+//@ func (*list).NAME result-off0 [C14 C17 C09 C19]
 //@   requires invL(ego)
 //@   let n := len(ego.val)
 //@   let A := mem(ego.val)
 //@   assigns  nothing
 //@   panics_iff false
 //@   ensures  own-storage: fresh(arr(result)) && off(result) == 0 [C09 C14]
+//@   ensures  typed: allocated(arr(result)) && kindAt(arr(result)) == KNARR && cap(result) == n
 //@   ensures  count: len(result) == cntK(A, KIND, n)
 //@   ensures  pick: forall k int :: 0 <= k && k < n && TEST(ego.val[k]) ==> 0 <= cntK(A, KIND, k) && cntK(A, KIND, k) < len(result) && result[cntK(A, KIND, k)] == PAYLOAD(ego.val[k])
 //@   ensures  all: (forall k int :: 0 <= k && k < n ==> TEST(ego.val[k])) ==> len(result) == n && (forall k int :: 0 <= k && k < n ==> result[k] == PAYLOAD(ego.val[k]))
@@ -582,3 +592,30 @@ package anytype
 //@ end
 //@ instantiate int-extremum(IntMin, MaxInt, <, <=, min)
 //@ instantiate int-extremum(IntMax, MinInt, >, >=, max)
+
+//@ func NewListFrom trusted [C12 C13 C17]
+//@   requires okArg(slice)
+//@   assigns  nothing
+//@   panics_iff !supp(slice)
+//@   plet r := list(vlref(result))
+//@   ensures  new: isVList(result) && fresh(r) && plain(r) && invL(r) && r.ptr == result && fresh(arr(r.val))
+//@   ensures  len: len(r.val) == sll(slice)
+//@   ensures  elems: forall k int :: 0 <= k && k < sll(slice) ==> wrapsS(r.val[k], rawAt(slice, k))
+
+// Sort (C17). Domain of the property: non-empty list, homogeneous strings / ints / non-NaN floats.
+//@ template sorted-kind(TAG, TEST, PAY, LE)
+//@   ensures  TAG-len: (forall k int :: 0 <= k && k < n ==> TEST(old(ego.val[k]))) ==> len(ego.val) == n
+//@   ensures  TAG-sorted: (forall k int :: 0 <= k && k < n ==> TEST(old(ego.val[k]))) ==> (forall i int, j int :: 0 <= i && i < j && j < n ==> LE(PAY(ego.val[i]), PAY(ego.val[j])))
+//@   ensures  TAG-perm: (forall k int :: 0 <= k && k < n ==> TEST(old(ego.val[k]))) ==> (exists p perm :: {isPerm(p, n)} isPerm(p, n) && (forall k int :: 0 <= k && k < n ==> ego.val[k] == old(ego.val[p[k]])))
+//@ end
+//@ func (*list).Sort [C17 C05 C19]
+//@   requires invL(ego)
+//@   requires nonempty: len(ego.val) > 0
+//@   let n := len(ego.val)
+//@   assigns  list(ego)
+//@   panics_iff !(isWStr(ego.val[0]) || isWInt(ego.val[0]) || isWFloat(ego.val[0]))
+//@   on_panic unchanged: listsUnchanged(H0)
+//@ instantiate sorted-kind(ints, isWInt, wint, ile)
+//@ instantiate sorted-kind(strings, isWStr, wstr, sle)
+//@ instantiate sorted-kind(floats, isWFloat, wfloat, fle)
+//@   ensures  fluent: result == ego.ptr [C19]
